@@ -116,6 +116,16 @@ func (m *PartialBlock) ExtractMatches() *chainhash.Hash {
 		height++
 	}
 
+	// every extraction starts at the beginning of the message: the traversal
+	// state is kept in m, and a second call must not pick up where the
+	// previous one stopped (a message rejected for an unused hash would
+	// otherwise be accepted, with that hash as its root, when asked again)
+	m.bad = false
+	m.bitsUsed = 0
+	m.hashesUsed = 0
+	m.matchedHashes = make([]*chainhash.Hash, 0)
+	m.matchedItems = make([]uint32, 0)
+
 	// traverse the partial merkle tree
 	merkleRootHash := m.traverseAndExtract(height, 0)
 
